@@ -24,13 +24,21 @@ func hC11N() int {
 // hClassed returns a symbolic string of length n whose bytes are each
 // constrained to one of four lexical classes chosen by forking, so that the
 // natively parsed representative is typical for the whole class.
-func hClassed(name string, n int) string {
+func hClassed(name string, n int) string { return hClassedWith(name, n, -1) }
+
+// hClassedWith: as hClassed, with the class of the first byte already chosen
+// by the caller (cls0 >= 0), so that it can be part of a sharded first choice.
+func hClassedWith(name string, n int, cls0 int) string {
 	s := vfString(name, n)
 	for i := 0; i < n; i++ {
 		b := s[i]
 		digit := vfAnd(b >= '0', b <= '9')
 		word := vfOr(vfOr(vfAnd(b >= 'a', b <= 'z'), vfAnd(b >= 'A', b <= 'Z')), vfOr(b == '$', vfOr(b == '.', b == '_')))
-		switch vfChoice(name+"cls"+string(rune('0'+i)), 4) {
+		cls := cls0
+		if i > 0 || cls0 < 0 {
+			cls = vfChoice(name+"cls"+string(rune('0'+i)), 4)
+		}
+		switch cls {
 		case 0:
 			vfAssume(digit)
 		case 1:
@@ -201,5 +209,58 @@ func VfC11_ParseStrings() {
 		if ok {
 			vfAssert("C11.chararray.parse-roundtrip", string(back.X) == string(s))
 		}
+	}
+}
+
+// VfC11_ParseImpliedComdat: a global and a function in a comdat of their own
+// name; the printer writes bare `comdat` and the parser has to find the comdat
+// from the name of the global.  Parsed from the explicit spelling, printed, and
+// parsed again: both times the global is bound to the comdat of its own name.
+//
+//vf:unwind 200
+//vf:shards 8
+func VfC11_ParseImpliedComdat() {
+	n := vfLen("n", 1, hC11N())
+	s := hClassed("s", n)
+	isFunc := vfChoice("func", 2) == 1
+	g, c := enc.GlobalName(s), enc.ComdatName(s)
+	var src string
+	if isFunc {
+		src = c + " = comdat any\n$other = comdat any\ndefine void " + g + "() comdat(" + c + ") {\n\tret void\n}\n"
+	} else {
+		src = c + " = comdat any\n$other = comdat any\n" + g + " = global i32 0, comdat(" + c + ")\n"
+	}
+	m, err := ParseString("t.ll", src)
+	vfReach("C11.parse.implied-comdat")
+	vfObserveStr("src", src)
+	vfAssert("C11.implied-comdat.parse-accepts", err == nil)
+	if err != nil {
+		return
+	}
+	y := m.String()
+	vfObserveStr("y", y)
+	m2, err2 := ParseString("t.ll", y)
+	vfAssert("C11.implied-comdat.print-accepted", err2 == nil)
+	if err2 != nil {
+		return
+	}
+	var cd *ir.ComdatDef
+	var name string
+	if isFunc {
+		cd, name = m2.Funcs[0].Comdat, m2.Funcs[0].GlobalName
+	} else {
+		cd, name = m2.Globals[0].Comdat, m2.Globals[0].GlobalName
+	}
+	vfAssert("C11.implied-comdat.name-roundtrip", name == s)
+	vfAssert("C11.implied-comdat.bound", cd != nil)
+	if cd != nil {
+		vfAssert("C11.implied-comdat.same-name", cd.Name == s)
+		found := false
+		for _, d := range m2.ComdatDefs {
+			if d == cd {
+				found = true
+			}
+		}
+		vfAssert("C11.implied-comdat.is-definition", found)
 	}
 }
